@@ -13,3 +13,4 @@ import Generated.GoMime
 import Generated.GoJtp
 import Generated.GoAnsih
 import Generated.GoView
+import Generated.GoSelect
